@@ -115,6 +115,40 @@ func appendChain(start ssa.Value, n int) []ssa.Value {
 	return out
 }
 
+// indexedHeader: part := make([]byte, k, cap); part[0] = a; ... part[k-1] = z - the header stored by index into a buffer
+// that starts with exactly k octets (k a constant). Every one of the k elements is stored exactly once, with a constant
+// index, in the block of the make (so before anything is appended); the values in index order, nil if not of this form.
+func indexedHeader(ms *ssa.MakeSlice) []ssa.Value {
+	k, ok := constInt(ms.Len)
+	if !ok || k <= 0 || k > 16 || ms.Referrers() == nil {
+		return nil
+	}
+	vals := make([]ssa.Value, k)
+	for _, r := range *ms.Referrers() {
+		ia, isIA := r.(*ssa.IndexAddr)
+		if !isIA || ia.X != ssa.Value(ms) || ia.Referrers() == nil {
+			continue
+		}
+		for _, rr := range *ia.Referrers() {
+			st, isSt := rr.(*ssa.Store)
+			if !isSt || st.Addr != ssa.Value(ia) {
+				continue
+			}
+			i, isK := constInt(ia.Index)
+			if !isK || i < 0 || i >= k || vals[i] != nil || st.Block() != ms.Block() {
+				return nil
+			}
+			vals[i] = st.Val
+		}
+	}
+	for _, v := range vals {
+		if v == nil {
+			return nil
+		}
+	}
+	return vals
+}
+
 // headerOctetsBefore counts the single octets appended to a fresh buffer before call (an append of a payload): the
 // chain append(append(make(0,..), a, b), c ...) is walked backwards and the variadic element counts are summed.
 func headerOctetsBefore(part *ssa.Call) int {
@@ -138,6 +172,9 @@ func headerOctetsBefore(part *ssa.Call) int {
 			return -1
 		}
 		cur = call.Call.Args[0]
+	}
+	if ms, ok := cur.(*ssa.MakeSlice); ok {
+		n += len(indexedHeader(ms))
 	}
 	return n
 }
@@ -312,6 +349,9 @@ func headerOf(fn *ssa.Function) ([]ssa.Value, token.Pos) {
 				if h := literalOctets(segs[0].src); len(h) > 0 && int64(len(h)) == segs[1].off {
 					return h, ms.Pos()
 				}
+			}
+			if h := indexedHeader(ms); len(h) > 0 {
+				return h, ms.Pos()
 			}
 			if k, ok := constInt(ms.Len); !ok || k != 0 {
 				continue
